@@ -375,6 +375,26 @@ func oracleC04(c c4Case) error {
 		return err
 	}
 	after2 := mustSnapshot(snapRoot)
+	if c.All && c.Children > 0 {
+		// the same second run, made by a fresh process on the result of the first run: what an earlier run in the same
+		// process left in memory must not matter (gengo.sum included)
+		if err := after1.Restore(snapRoot); err != nil {
+			panic("harness: restore: " + err.Error())
+		}
+		res, exit, stderr := script.RunChild(spec(nil), os.TempDir())
+		if exit != 0 {
+			panic(fmt.Sprintf("harness: child run exited %d: %s", exit, clip(stderr, 800)))
+		}
+		if err := check("second run in a fresh process", res); err != nil {
+			return err
+		}
+		for _, ch := range modspec.Diff(after2, mustSnapshot(snapRoot)) {
+			return fmt.Errorf("a second run gives a different result in a fresh process than in the process that made the first run: %s %s", ch.Kind, ch.Path)
+		}
+		if err := after2.Restore(snapRoot); err != nil {
+			panic("harness: restore: " + err.Error())
+		}
+	}
 	for _, ch := range modspec.Diff(after1, after2) {
 		if path.Base(ch.Path) == "gengo.sum" {
 			continue
